@@ -139,7 +139,8 @@ def _ood_query(case):
              'templates.npy', 'amplitudes.npy', 'channel_map.npy'] + sorted(sp.get('extra_npy') or {})
     return dict(op='export', rate=DC.frac(sp['sample_rate']), n_amplitudes=len(st), samples=sp['spike_samples'],
                 sc=sp.get('spike_clusters') or st, st=st, n_templates=len(sp['templates']), channel_map=sp['channel_map'],
-                channel_probes=sp.get('channel_probes') or [0] * sp['n_channels'], features=sp.get('pc_features') is not None,
+                channel_probes=sp.get('channel_probes') or [0] * sp['n_channels'],
+                **({'feat_rows': len(sp['pc_features'])} if sp.get('pc_features') is not None else {}),
                 same_dir=False, force=False, label=case.get('label', ''), has_traces=has_traces(case),
                 src=[dict(name=n, tag='x', rows=2) for n in names])
 
@@ -156,7 +157,10 @@ def model_query(case, impl_res):
     ls = ok['listings']
     view = dict(rate=DC.frac(sm['sample_rate']), n_amplitudes=len(sm['amplitudes']),
                 sc=sm['spike_clusters'], st=sm['spike_templates'], n_templates=sm['n_templates'],
-                channel_map=sm['channel_mapping'], channel_probes=sm['channel_probes'], features=bool(sm['has_features']))
+                channel_map=sm['channel_mapping'], channel_probes=sm['channel_probes'])
+    if sm.get('feat_rows') is not None:
+        # rows of the feature store of the source model (fewer than spikes: pc_feature_spike_ids layout)
+        view['feat_rows'] = sm['feat_rows']
     sec = ((case.get('spec') or {}).get('extra_npy') or {}).get('spikes.times.npy')
     if sec is not None:
         # the source gives its spike times in SECONDS (spikes.times.npy, no spike_times.npy): the times are an input
@@ -331,7 +335,7 @@ def tally(rep, case, impl_res, ans):
         s = case['spec']
         rep.count('curated:%s' % (s.get('spike_clusters') is not None))
         rep.count('raw:%s' % bool(s.get('raw')))
-        rep.count('features:%s' % (s.get('pc_features') is not None))
+        rep.count('features:%s' % ('subset of the spikes' if s.get('pc_feature_spike_ids') is not None else s.get('pc_features') is not None))
         rep.count('vec2d:%s' % bool(s.get('vec2d')))
 
 
@@ -401,6 +405,9 @@ def gen(tier, rng):
             spec['extra_npy'] = dict(spec.get('extra_npy') or {}, **extra)
         if i % 8 == 6:
             _seconds_layout(spec, i)
+        if i % 16 == 4:
+            # features stored for a subset of the spikes (pc_feature_spike_ids.npy): get_depths() gives nothing
+            A.subset_features(rng, spec)
         # labels incl. ones that occur inside ALF file names or look like extensions
         label = ['', 'probe00', '', 'a', 'raw', '', 'amps', 'npy', 'spikes', 'x.y', 'clusters'][i % 11]
         if i in (33, 211):
